@@ -191,7 +191,7 @@ func (c *Ctx) dbField(name string) *types.Var {
 // ---- C01.R1 ordering facts in Commit
 
 func c01R1(c *Ctx, id string) {
-	c.rule(id, "commit-order", 5, func() {
+	c.rule(id, "commit-order", 6, func() {
 		commit := c.fn("bbolt.(*Tx).Commit")
 		write := c.theCall(id, commit, "bbolt.(*Tx).write")
 		wmeta := c.theCall(id, commit, "bbolt.(*Tx).writeMeta")
@@ -286,6 +286,39 @@ func c01R1(c *Ctx, id string) {
 		}
 		c.check(id+":(*Tx).Commit:grow<write", commit, grow.Pos(), "when the high-water mark moved, db.grow() succeeds before tx.write() (no pwrite beyond the truncated size)", ok4,
 			"tx.write reachable on the grown branch without a successful db.grow")
+
+		// (6) nothing between the grow decision and tx.write can raise the high-water mark: the size handed to grow
+		// must cover every page of this transaction (the new free-list pages included), so no allocation may follow it
+		{
+			allocs := map[string]bool{
+				"bbolt.(*Tx).allocate": true, "bbolt.(*DB).allocate": true, "bbolt.(*Bucket).spill": true, "bbolt.(*node).spill": true,
+				"bbolt.(*Tx).commitFreelist": true, "common.(*Meta).SetPgid": true,
+			}
+			var from []ssa.Instruction
+			if guard != nil {
+				from = append(from, guard)
+			}
+			from = append(from, grow)
+			region6 := reach(from, nil, func(in ssa.Instruction) bool { return in == write }, nil)
+			bad6 := ""
+			n6 := 0
+			for in := range region6 {
+				ci, isCall := in.(ssa.CallInstruction)
+				if !isCall || in == write || in == ssa.Instruction(grow) {
+					continue
+				}
+				if isCallTo(in, "bbolt.(*Tx).rollback") {
+					continue
+				}
+				n6++
+				if p := c.siteReaches(ci, allocs, map[string]bool{"bbolt.(*Tx).rollback": true}); p != nil {
+					bad6 = fmt.Sprintf("%s: %s", c.P.Position(in.Pos()), strings.Join(p, " -> "))
+				}
+			}
+			c.check(id+":(*Tx).Commit:no-allocation-after-grow", commit, grow.Pos(),
+				fmt.Sprintf("no call between the decision to grow the file and tx.write() can allocate pages (%d call sites examined): the truncate+fsync covers every page this commit writes, so a crash cannot leave the committed meta pointing beyond the durable end of file", n6), bad6 == "" && guard != nil,
+				"pages can be allocated at the high-water mark after the file size for this commit was fixed: "+bad6)
+		}
 
 		// (5) nothing between write and close can dirty or allocate a page
 		dirty := map[string]bool{
